@@ -51,6 +51,34 @@ def exclTags (ps : PState) (toks : List String) : List String × Bool :=
     match ps.obj v with
     | some (_, t) => ((if Excl_shortStrides t then ["F24"] else []), false)
     | _ => ([], false)
+  | "bin" :: op :: _ :: a :: b :: _ =>
+    -- F30: contiguous float division goes through vecf32/vecf64.Div (+Inf for every zero divisor)
+    let dtOf (tok : String) := (ps.obj tok).map (·.2.dt)
+    let dt := (dtOf a).orElse (fun _ => dtOf b)
+    let opts := toks.drop 5
+    let same := opts.contains "same"
+    let uns := opts.contains "unsafe"
+    let reuse := (opts.find? (·.startsWith "reuse=")).bind (fun t => (ps.obj (t.drop 6).toString).map (·.2))
+    let f31 := (ordCmpOps.contains op || eqCmpOps.contains op) && a.startsWith "#" &&
+      (match ps.obj b with | some (_, t) => Excl_cmpSameIterSV t reuse false same uns | none => false)
+    let isCmp := ordCmpOps.contains op || eqCmpOps.contains op
+    let reuseId := (opts.find? (·.startsWith "reuse=")).bind (fun t => (ps.obj (t.drop 6).toString).map (·.1))
+    let incr := (opts.find? (·.startsWith "incr=")).isSome
+    let oa := ps.obj a
+    let ob := ps.obj b
+    -- F10: tensor-tensor, iterator path, the reuse tensor is the second operand: CopyIter overwrites b before it is read
+    let f10 := match oa, ob, reuseId with
+      | some (_, x), some (bid, y), some rid =>
+        rid == bid && (x.requiresIterator || y.requiresIterator || x.ap.o.col != y.ap.o.col) && (!isCmp || same)
+      | _, _, _ => false
+    -- F32: incr mode with one-element operands: `Vec<Op>(a, b)` clobbers the first operand
+    let oneCell (o : Option (Nat × Dense)) (tok : String) := match o with | some (_, d) => d.win.len == 1 | none => tok.startsWith "#"
+    let f32 := incr && oneCell oa a && oneCell ob b && !isCmp
+    -- F33: unsafe scalar-left comparison on a one-element tensor: result written to the scalar's temporary
+    let f33 := isCmp && uns && a.startsWith "#" && (match ob with | some (_, d) => d.win.len == 1 | none => false)
+    ((if op == "div" && (dt == some "f32" || dt == some "f64") then ["F30"] else []) ++
+     (if f31 then ["F31"] else []) ++ (if f10 then ["F10"] else []) ++ (if f32 then ["F32"] else []) ++
+     (if f33 then ["F33"] else []), true)
   | ["calcS", v, spec] =>
     match ps.obj v, parseSlList spec with
     | some (_, t), some sls =>
@@ -69,6 +97,12 @@ def exclTags (ps : PState) (toks : List String) : List String × Bool :=
 /-- the object a step observes / mutates (first `$k` argument) and the object it creates -/
 def stepTarget (ps : PState) (toks : List String) : Option Nat :=
   (toks.filterMap (fun t => (ps.obj t).map (·.1))).head?
+
+/-- every object a step names (also inside `reuse=$k` / `incr=$k`) -/
+def stepObjects (ps : PState) (toks : List String) : List Nat :=
+  toks.filterMap (fun t =>
+    let t := if t.startsWith "reuse=" then (t.drop 6).toString else if t.startsWith "incr=" then (t.drop 5).toString else t
+    (ps.obj t).map (·.1))
 
 def mResClass (o : StepOut) : String :=
   let f := match o with | .fields f => f | .stop f => f
@@ -113,9 +147,12 @@ def runProgram (line : String) : List String :=
             else tn
           | none => tn
         -- writes through a tainted object taint its buffer; copies from a tainted source taint the destination
-        let writes := ["memset", "zero", "setat", "copy", "copyto", "transpose", "reshape"].contains (toks.head?.getD "")
+        -- an operation taints every object it names with the tags it raises
+        let tn := if tags.isEmpty then tn else
+          (stepObjects ps toks).foldl (fun tn id => { tn with obj := addAt tn.obj id tags }) tn
+        let writes := ["memset", "zero", "setat", "copy", "copyto", "transpose", "reshape", "bin", "un"].contains (toks.head?.getD "")
         let tn := if writes then
-            let objs := toks.filterMap (fun t => (ps.obj t).map (·.1))
+            let objs := stepObjects ps toks
             let all := (objs.flatMap (fun id => tn.ofObj ps id)).eraseDups
             if all.isEmpty then tn else
               objs.foldl (fun tn id => match ps.ds[id]? with
